@@ -108,7 +108,7 @@ func (s *grpcServer) BatchUpdateBlobs(ctx context.Context,
 
 		if req.Compressor != pb.Compressor_IDENTITY && req.Compressor != pb.Compressor_ZSTD {
 			s.errorLogger.Printf("%s %s UNSUPPORTED COMPRESSOR: %s", errorPrefix, req.Digest.Hash, req.Compressor)
-			rr.Status.Code = int32(gRPCErrCode(err, codes.InvalidArgument))
+			rr.Status.Code = int32(codes.InvalidArgument)
 			continue
 		}
 
